@@ -6,6 +6,7 @@ from ..core import lean
 from ..core.common import Outcome, fingerprint
 from ..core.par import run_chunks, mark
 from ..comp import buffer as B
+from ..comp import buffer_threads as BT
 
 MODULE = 'AiutiVerif.Buffer.RunProps'
 LEAN_SUBDIRS = ['AiutiVerif/Buffer', 'AiutiVerif/Core', 'Driver.lean']
@@ -16,7 +17,9 @@ ASSUMPTIONS_COMMON = [
     'gather waits for its slowest child',
     'inputs issued at one instant are those of one task in program order (submissions, then waits); exact ties '
     'between an input and a timer are not judged',
-    'single loop thread: the foreign-thread interleavings of the quantifier are not explored by this check',
+    'foreign submitting threads (1..2, with and without wait_from_anywhere) are explored under the baton scheduler with '
+    'a schedule point at every access to the shared completion flag; those executions are judged by the monitors only '
+    '(the Lean machine is single-threaded: a foreign flag clear is the extra input `fclear`, which keeps the invariant)',
 ]
 PHASES = {0: 'transient', 1: 'idle', 2: 'loading', 3: 'timer-armed', 4: 'loading-captured', 5: 'function-running'}
 
@@ -109,22 +112,89 @@ def _shutdown_cases(seed0, count, out, drv):
                               'where': 'does the daemon terminate when cancelled in this phase'})
 
 
+def _chunk_threads(args):
+    """Foreign submitting threads under the baton scheduler: random / PCT schedules, and for the first few
+    scenarios every single preemption of the non-preemptive schedule."""
+    prop, seed0, count, nsys = args
+    logging.disable(logging.CRITICAL)
+    out = Outcome()
+
+    def one(scn, case, **kw):
+        mark(case)
+        out.evaluations += 1
+        r = BT.run(scn, case['seed'], **kw)
+        case['schedule'] = r['trace']
+        for (p, kind, detail) in BT.monitors(scn, r, {prop}):
+            out.concrete.append({'case': dict(case), 'what': f'{kind}: {detail}', 'observed': r['calls'],
+                                 'signature': {'kind': kind, 'threads': 'foreign'}})
+        for e in r['errors']:
+            out.concrete.append({'case': dict(case), 'what': f'exception in thread {e[0]}: {e[1]}',
+                                 'signature': {'kind': 'exception', 'threads': 'foreign'}})
+        out.fingerprints.add(fingerprint((scn, r['trace'])))
+        out.traces_validated += 1
+        out.count('threads:foreign=%d' % len(scn['foreign']))
+        out.count('threads:flag-accesses', len(r['flaglog']))
+        out.count('threads:calls', len(r['calls']))
+        return r
+    for i in range(count):
+        rng = random.Random((seed0 << 20) + 900000 + i)
+        scn = BT.gen(rng)
+        case = {'threads': True, 'scenario': scn, 'seed': (seed0 << 20) + i, 'pct': rng.choice([0, 0, 1, 2])}
+        one(scn, case, pct=case['pct'])
+        if len(out.concrete) > 20:
+            break
+    for i in range(nsys):
+        rng = random.Random((seed0 << 20) + 950000 + i)
+        scn = BT.gen(rng)
+        case = {'threads': True, 'scenario': scn, 'seed': 0, 'pct': 0, 'preempt': {}}
+        r0 = one(scn, case, preempt={})
+        for d, nb in enumerate(r0['branching']):
+            for k in range(nb):
+                case = {'threads': True, 'scenario': scn, 'seed': 0, 'pct': 0, 'preempt': {str(d): k}}
+                one(scn, case, preempt={d: k})
+            if len(out.concrete) > 20:
+                break
+        out.count('threads:systematic-scenarios')
+    return out
+
+
+def _dispatch(args):
+    if args[0] == 'threads':
+        return _chunk_threads(args[1:])
+    return _chunk(args)
+
+
 def make(prop, flavor, quick_n, thorough_n, shutdown=False):
     def run(ctx):
         n = quick_n if ctx.quick else thorough_n
         workers = 4 if ctx.quick else ctx.workers
         per = max(1, n // (workers * 2))
         chunks = [(prop, flavor, ctx.seed * 1000 + k, per, True, shutdown) for k in range(max(1, n // per))]
-        return run_chunks(_chunk, chunks, workers, limit_s=60 if ctx.quick else 900)
+        if prop in ('C03', 'C07'):
+            chunks += [('threads', prop, ctx.seed * 1000 + k, 150 if ctx.quick else 4000, 2 if ctx.quick else 12)
+                       for k in range(workers)]
+        return run_chunks(_dispatch, chunks, workers, limit_s=60 if ctx.quick else 900)
 
     def search(ctx, outcome):
         chunks = [(prop, flavor, (ctx.seed + 7) * 1000 + 500 + k, 400, False, False) for k in range(8)]
-        out = run_chunks(_chunk, chunks, ctx.workers, limit_s=60)
+        if prop in ('C03', 'C07'):
+            chunks += [('threads', prop, (ctx.seed + 7) * 1000 + 700 + k, 500, 4) for k in range(4)]
+        out = run_chunks(_dispatch, chunks, ctx.workers, limit_s=60)
         out.diffs = []
         return out
 
     def replay(ctx, payload):
         case = payload.get('case') or (payload.get('first_differing_case') or {}).get('case')
+        if case.get('threads'):
+            scn = case['scenario']
+            scn['own'] = [tuple(x) for x in scn['own']]
+            for f in scn['foreign']:
+                f['subs'] = [tuple(x) for x in f['subs']]
+            scn['outcomes'] = [tuple(x) for x in scn['outcomes']]
+            r = BT.run(scn, case['seed'], choices=case.get('schedule'))
+            bad = BT.monitors(scn, r, {prop})
+            return {'case': case, 'calls': r['calls'], 'waits': r['waits'], 'flag': r['flaglog'][-20:],
+                    'hung': r['hung'], 'monitor': bad, 'fails': bool(bad)}
         T, outcomes = case['T'], [tuple(o) for o in case['outcomes']]
         prog = [tuple(st[:3]) + ([tuple(x) for x in st[3]],) if st[0] == 's' else tuple(st) for st in case['prog']]
         sd = case.get('shutdown_at')
